@@ -56,6 +56,12 @@ def classify(r):
         tags.add("variable-condition")
     if "__typename" in q:
         tags.add("typename")
+    import re as _re
+    if _re.search(r"\{.*@(?!skip|include|defer)\w+", q, _re.S):
+        tags.add("field-executable-directive")
+        if any(i["hook"].startswith("directive:") and i["kind"] in ("error", "errval", "block", "panic")
+               and ("@" + i["hook"][len("directive:"):]) in q for i in r["log"]):
+            tags.add("field-executable-directive-fault")
     if q.startswith("mutation"):
         tags.add("mutation")
     if q.startswith("subscription"):
